@@ -17,6 +17,14 @@
 //@ fn DAC_VLS::access tu=utils/DAC_VLS.cpp
 //@ fn DAC_VLS::getListLength tu=utils/DAC_VLS.cpp
 //@ fn StringDictionaryRPDAC::ctor sig=IteratorDictString_p
+//@ fn StringDictionaryRPDAC::locate
+//@   requires(__CPROVER_r_ok(this, sizeof(*this)) && this->elements < ((uint64_t)1 << 32) && __CPROVER_r_ok(str, 1))
+//@   ensures(RET == 0 || (RET >= 1 && RET <= this->elements))
+//@   assigns()
+//@   loop 1: assigns(left, right, center, cmp)
+//@   loop 1: invariant(1 <= left && left <= right + 1 && right <= this->elements)
+//@   loop 1: decreases(right + 1 - left)
+//@ ob rpdac_locate entry=h_rpdac_locate enforce=StringDictionaryRPDAC__locate replace=RePair__extractStringAndCompareDAC loops tier=P props=C02,C14,C01,C07 kind=statement
 //@ ob rpdac_ctor entry=h_rpdac_ctor tier=B props=C01,C17,C15 kind=statement grid=rpdac defs=-DNEW_ARRAY_CAP=12 timeout=1800 mem=24 replay=rpdac
 //@ structs
 /* TRUSTED: the Re-Pair compressor is replaced by the identity grammar (no rules, 256 terminals, sequence unchanged): the obligation is about what the dictionary constructor does with the sequence afterwards (compaction, hand-over to the DAC). BitSequenceRG is replaced by its specification as in unit dac. */
@@ -27,7 +35,16 @@ bool IteratorDictString__hasNext(IteratorDictString *it);
 uchar *IteratorDictString__next(IteratorDictString *it, uint *len);
 uint IteratorDictString__size(IteratorDictString *it);
 void IteratorDictString__delete(IteratorDictString *it);
+/* TRUSTED: frame of the grammar comparison used by RPDAC::locate: it reads the dictionary and the pattern, writes nothing */
+int RePair__extractStringAndCompareDAC(RePair *this, uint id, uchar *str, uint strLen)
+__CPROVER_requires(id >= 1) __CPROVER_ensures(1) __CPROVER_assigns();
 //@ lowered
+void h_rpdac_locate(void) {
+  StringDictionaryRPDAC *d = malloc(sizeof(StringDictionaryRPDAC)); __CPROVER_assume(d != NULL);
+  uchar *pat = malloc(8); __CPROVER_assume(pat != NULL); uint in_len;
+  StringDictionaryRPDAC__locate(d, pat, in_len);
+  REACH_POINT();
+}
 #define MAXBITS 16
 static uint g_bits[MAXBITS / 32 + 1];
 BitSequenceRG *BitSequenceRG__ctor__uint_p__size_t__uint(BitSequenceRG *this, uint *bitarray, size_t n, uint factor) {
